@@ -1,13 +1,14 @@
 (* C02 - RBSP extraction removes exactly the emulation-prevention bytes, for any chunking.
-   Status: proved here - the specification-level law (decoding the escaped form of any payload gives
-   the payload back).  The refinement "streaming reader = unescape for every chunking, window and
-   operation order" (DESIGN.md Appendix A.2) is not yet a theorem in this revision; it is carried by
-   the exhaustive small-scope correspondence (all strings <= 6 over {00,01,03,04} x all partitions x
-   read styles x skips x fill windows 1..4, window-boundary cases, random escaped payloads) with an
-   independent reference unescape as oracle. *)
-From H264 Require Import Base.Prelude Spec.Escape Proofs.EscapeProofs Model.RefNal Model.Rbsp.
+   The streaming reader model (Model/Rbsp.v: ByteReader over a chunked RefNalReader, examination window
+   max_fill, header skip) is proved to refine the specification function Spec/Escape.unescape for every
+   input, chunking, window, skip and history of read / fill_buf / consume calls; decode_nal is proved equal
+   to its specification including the Cow variant.  The model is tied to src/rbsp.rs by the correspondence
+   run (vlib/props/C02.py). *)
+From H264 Require Import Base.Prelude Spec.Escape Proofs.EscapeProofs Model.RefNal Model.Rbsp
+  Proofs.C15_proofs Proofs.RbspSem Proofs.RbspScan Proofs.RbspReader Proofs.RbspStream.
 Local Open Scope N_scope.
 
+(* decoding the escaped form of any payload returns that payload *)
 Theorem C02_escape_roundtrip : forall p, unescape (escape p) = Some p.
 Proof. exact unescape_escape. Qed.
 Print Assumptions C02_escape_roundtrip.
@@ -21,10 +22,81 @@ Proof.
 Qed.
 Print Assumptions C02_forbidden.
 
-(* the model's one-shot decoder on the documentation examples of rbsp.rs *)
+(* Every history of fill_buf / consume(k) / read(n) calls, on a reader over any chunking (head :: tl, every
+   chunk non-empty), any examination window mf >= 1 and any header skip within the input: the bytes handed
+   over are a prefix of unescape(payload); the only errors are WouldBlock (incomplete NAL, everything
+   delivered) and InvalidData (payload not clean; everything delivered came from a clean prefix); the
+   model never panics nor runs out of fuel. *)
+Theorem C02_stream_history : forall head tl c skip mf ops,
+  head <> [] -> Forall (fun ch => ch <> []) tl -> 1 <= mf -> skip <= N.of_nat (length (head ++ concat tl)) ->
+  let '(d, o, _) := brun (br_new (rdr_of_nal head tl c) skip mf) ops [] in
+  match unescape (payload head tl skip) with
+  | Some p => is_prefix d p /\
+      match o with OK _ => True | ERR WouldBlock => c = false /\ d = p | _ => False end
+  | None => from_clean_prefix d (payload head tl skip) /\
+      match o with OK _ => True | ERR InvalidData => True | _ => False end
+  end.
+Proof. exact stream_history. Qed.
+Print Assumptions C02_stream_history.
+
+(* Reading to the end (read_to_end, and every bit reader layered on the ByteReader) yields exactly
+   unescape(payload), whatever the chunking and window. *)
+Theorem C02_stream_drain : forall head tl c skip mf,
+  head <> [] -> Forall (fun ch => ch <> []) tl -> 1 <= mf -> skip <= N.of_nat (length (head ++ concat tl)) ->
+  let '(d, t, _) := br_drain (br_new (rdr_of_nal head tl c) skip mf) in
+  match unescape (payload head tl skip) with
+  | Some p => d = p /\ t = (if c then TermEof else TermErr WouldBlock)
+  | None => from_clean_prefix d (payload head tl skip) /\ t = TermErr InvalidData
+  end.
+Proof. exact stream_drain. Qed.
+Print Assumptions C02_stream_drain.
+
+(* two chunkings / windows of the same bytes give the same RBSP *)
+Theorem C02_paths_agree : forall head1 tl1 head2 tl2 c skip mf1 mf2 p,
+  head1 <> [] -> Forall (fun ch => ch <> []) tl1 -> head2 <> [] -> Forall (fun ch => ch <> []) tl2 ->
+  1 <= mf1 -> 1 <= mf2 -> head1 ++ concat tl1 = head2 ++ concat tl2 ->
+  skip <= N.of_nat (length (head1 ++ concat tl1)) ->
+  unescape (payload head1 tl1 skip) = Some p ->
+  fst (br_drain (br_new (rdr_of_nal head1 tl1 c) skip mf1)) = fst (br_drain (br_new (rdr_of_nal head2 tl2 c) skip mf2)) /\
+  fst (fst (br_drain (br_new (rdr_of_nal head1 tl1 c) skip mf1))) = p.
+Proof.
+  intros head1 tl1 head2 tl2 c skip mf1 mf2 p H1 T1 H2 T2 M1 M2 E S U.
+  pose proof (stream_drain head1 tl1 c skip mf1 H1 T1 M1 S) as D1.
+  assert (S2 : skip <= N.of_nat (length (head2 ++ concat tl2))) by (rewrite <- E; exact S).
+  pose proof (stream_drain head2 tl2 c skip mf2 H2 T2 M2 S2) as D2.
+  assert (P2 : payload head2 tl2 skip = payload head1 tl1 skip) by (unfold payload; rewrite E; reflexivity).
+  rewrite P2 in D2. rewrite U in D1, D2.
+  destruct (br_drain (br_new (rdr_of_nal head1 tl1 c) skip mf1)) as [[d1 t1] r1].
+  destruct (br_drain (br_new (rdr_of_nal head2 tl2 c) skip mf2)) as [[d2 t2] r2].
+  destruct D1 as [-> ->]. destruct D2 as [-> ->]. split; reflexivity.
+Qed.
+Print Assumptions C02_paths_agree.
+
+(* the one-shot decoder: unescape of the bytes after the header; borrowed exactly when no byte was removed *)
+Theorem C02_decode_nal : forall nal, nal <> [] -> N.of_nat (length nal) <= usize_max ->
+  decode_nal nal =
+  match unescape (tl nal) with
+  | None => ERR InvalidData
+  | Some p => if Nat.eqb (length p) (length (tl nal)) then OK (Borrowed (tl nal)) else OK (Owned p)
+  end.
+Proof. exact decode_nal_correct. Qed.
+Print Assumptions C02_decode_nal.
+
+(* ... and "no byte removed" is the same as "output equals input" *)
+Theorem C02_borrow_iff_unchanged : forall l p, unescape l = Some p ->
+  (length p <= length l)%nat /\ (length p = length l -> p = l).
+Proof. intros l p H. split; [exact (unescape_length l p H)|exact (unescape_same_length l p H)]. Qed.
+Print Assumptions C02_borrow_iff_unchanged.
+
+(* non-vacuity and the documentation examples of rbsp.rs *)
 Example C02_ex_decode_nal :
   decode_nal [104; 18; 52; 0; 0; 3; 0; 134] = OK (Owned [18; 52; 0; 0; 0; 134]) /\
   decode_nal [104; 232; 67; 143; 19; 33; 48] = OK (Borrowed [232; 67; 143; 19; 33; 48]) /\
   decode_nal [104; 18; 52; 0; 0; 0; 134] = ERR InvalidData /\
   decode_nal [] = OK (Owned []).
 Proof. vm_compute. repeat split. Qed.
+
+Example C02_ex_history :
+  brun (br_new (rdr_of_nal [104; 18; 0] [[0]; [3; 0; 134]] true) 1 2) [BRead 1; BFill; BConsume 1; BRead 9; BRead 9; BRead 9; BRead 9] []
+  = ([18; 0; 0; 0; 134], OK tt, mk_br (mk_rdr [] [] true) Start 0 2).
+Proof. vm_compute. reflexivity. Qed.
